@@ -25,6 +25,11 @@ def run(tier, seed, work, replay):
         for a in inj:
             cases.append({"kind": "sequence", "file": f, "steps": [a]})
     good = {"pass": "right", "cert": True, "tls": True}
+    # worlds whose list of published keys is preloaded (keymaster_public_keys_filename): after the unseal the keys
+    # that sign must be published whatever the list already held
+    for f in ("ed:preed", "ed:prersa", "ed:preforeign", "ed:premix", "ok:prersa", "ok:preforeign"):
+        cases.append({"kind": "sequence", "file": f, "steps": [good]})
+        cases.append({"kind": "sequence", "file": f, "steps": [{"pass": "wrong", "cert": True, "tls": True}, good, good]})
     for a in inj:
         cases.append({"kind": "sequence", "file": "ok", "steps": [a, good, a, good]})
     for _ in range(20 if tier == "quick" else 200):
